@@ -513,6 +513,14 @@ class ComponentLevel3( ComponentLevel2 ):
 
         for v in net:
           if v != writer:
+            # Two overlapping slices that are both readers of this net
+            # give each bit in the overlap two drivers
+            for x in v.get_sibling_slices():
+              if x is not writer and x in net and x.slice_overlap( v ):
+                raise MultiWriterError( \
+                "Two-writer conflict: overlapping slices \"{}\" and \"{}\" are both driven by \"{}\" in the following net:\n - {}".format(
+                  repr(v), repr(x), repr(writer), "\n - ".join([repr(y) for y in net])) )
+
             writer_prop[ v ] = True # The reader becomes new writer
 
             obj = v.get_parent_object()
